@@ -25,6 +25,7 @@ import (
 	"fmt"
 	"math/rand"
 	"reflect"
+	"runtime/debug"
 	"sort"
 	"strings"
 	"sync"
@@ -136,6 +137,11 @@ func c17ieCall(tpl string, envs map[string]string, hasDef bool, def string) (res
 func TestVerifC17IEnv(t *testing.T) {
 	rep := vNewReport("internal/env.ExpandEnvWithDefault/ExpandEnvSlice[WithDefault]: templates of 0-8 symbols over {blank, quotes, \\, -, $, (, ), lone { and }, ASCII, multi-byte runes, {}, {a}, {root}, {hex}, {nokey}, $HOME, ${a}} plus explicit {key} references; envs = 0-4 keys from {root,port,hex,bin,a,ab,tmpDir,x.y,é} and sometimes the empty key, values of 0-4 symbols over the same alphabet (i.e. values that themselves contain {}, {key} and brace fragments); default absent, empty or 0-3 symbols. Reference: one left-to-right pass ({} -> default, {key} -> envs[key], everything else copied). Each input evaluated 8x (fresh map every second time): all 8 results equal the reference. Inputs on which successive ReplaceAll in some key order differs from the single pass are 'rescan-sensitive': asserted only when the fixed probes of that class pass")
 	defer rep.Write()
+	defer func() { // a panic of the code under test outside a guarded call is an observation, not a broken check
+		if p := recover(); p != nil {
+			rep.Fail("ienv:panic", "monitor", fmt.Sprintf("panic escaped the monitor: %v\n%s", p, debug.Stack()), nil)
+		}
+	}()
 
 	// ---- fixed cases that hold on every tree
 	fixed := []struct {
